@@ -798,6 +798,42 @@ func (c *Ctx) ScatterPartition(prop string) {
 			}
 		}
 	}
+	if hc, isCall := ent.(*ssa.Call); !okEnt && isCall && !hc.Call.IsInvoke() {
+		// an extent helper with two returns: `if offset+e > n { return n - offset }; return e`
+		if h := hc.Call.StaticCallee(); h != nil && prog.InModule(h) && h.Blocks != nil && h.Signature.Results().Len() == 1 {
+			for k, q := range h.Params {
+				if k < len(hc.Call.Args) {
+					env[q] = hc.Call.Args[k]
+				}
+			}
+			rets := an.Returns(h)
+			if len(rets) == 2 {
+				for k := 0; k < 2; k++ {
+					full, rest := rets[k], rets[1-k]
+					if rv(an.Result(full, 0)) != e || !isRest(an.Result(rest, 0)) {
+						continue
+					}
+					bRest := rest.Block()
+					if len(bRest.Preds) != 1 {
+						continue
+					}
+					bIf := bRest.Preds[0]
+					iff, ok := bIf.Instrs[len(bIf.Instrs)-1].(*ssa.If)
+					if !ok || bIf.Succs[0] != bRest || bIf.Succs[1] != full.Block() {
+						continue
+					}
+					cmp, ok := iff.Cond.(*ssa.BinOp)
+					if !ok || (cmp.Op != token.GTR && cmp.Op != token.GEQ) || rv(cmp.Y) != nP {
+						continue
+					}
+					add, ok := cmp.X.(*ssa.BinOp)
+					if ok && add.Op == token.ADD && ((sameOff(add.X) && rv(add.Y) == e) || (sameOff(add.Y) && rv(add.X) == e)) {
+						okEnt = true
+					}
+				}
+			}
+		}
+	}
 	if !okEnt {
 		c.R.Fail(rule, Fn(fn)+":entries", c.Pos(goIns), "the number of entries given to a worker is not min(extent, inputLen-offset): "+an.Term(ent), "entries = extentSize, or inputLen-offset for the last worker", nil)
 		return
